@@ -963,10 +963,12 @@ func (i *interpreter) callBuiltin(caller *frame, callpos token.Pos, fn *ssa.Buil
 		}
 		src := args[1].([]value)
 		dst := args[0].([]value)
-		for _, e := range src {
-			dst = append(dst, copyVal(e))
+		// source and destination may overlap (append(s[:i+1], s[i:]...)): copy first
+		tmp := make([]value, len(src))
+		for k, e := range src {
+			tmp[k] = copyVal(e)
 		}
-		return dst
+		return append(dst, tmp...)
 
 	case "copy": // copy([]T, []T) int or copy([]byte, string) int
 		dst := args[0].([]value)
